@@ -183,7 +183,7 @@ def compile_harness(name, config, backend, srcs=None, extra_flags=None, cxx=None
         # always relink: the library may have changed (cheap)
         lflags = [f for f in flags if f.startswith("-fsanitize") or f == "-pthread"]
         r = subprocess.run([cxx, obj, "-o", exe + ".tmp"] + lflags +
-                           ["-L", libdir, "-ltfhe-" + backend, "-Wl,-rpath," + libdir] + (libs or []),
+                           ["-L", libdir, "-ltfhe-" + backend, "-Wl,-rpath," + libdir, "-lrapidcheck"] + (libs or []),
                            stdout=subprocess.PIPE, stderr=subprocess.STDOUT, text=True)
         if r.returncode != 0:
             raise RuntimeError("harness link failed (%s,%s,%s):\n%s" % (name, config, backend, r.stdout[-6000:]))
